@@ -21,7 +21,9 @@
        if on_message: on_message(self, self._userdata, message)
 
    The list of handlers to run is fixed (a snapshot) before the first of them runs; what a handler
-   does to the registrations affects later messages only.  Callbacks are assumed not to raise. *)
+   does to the registrations affects later messages only.
+   Every handler runs inside its own try/except: with suppress_exceptions an exception is logged and the
+   remaining handlers still run; without it the exception propagates and ends the dispatch ([cut]). *)
 From PahoV Require Import Base.Prelude Matcher.Level Matcher.Trie Matcher.TrieSpec.
 
 (* a registration change: the API calls, usable from the main program and from inside a callback *)
@@ -66,7 +68,20 @@ Definition dispatch (s : cstate) (decodable : bool) (topic : list Z) : list hand
    callback: the j-th invoked handler performs the j-th list (nothing if there is none). *)
 Inductive hop : Type :=
 | HReg (o : regop)
-| HDeliver (topic : list Z) (decodable : bool) (inner : list (list regop)).
+| HDeliver (topic : list Z) (decodable : bool) (inner : list (list regop)) (raises : list bool).
+                                 (* raises: does the j-th invoked handler raise (after its registration changes) *)
+
+(* the handlers that actually run when exceptions propagate: up to and including the first one that raises *)
+Fixpoint cut (raises : list bool) (l : list handler) : list handler :=
+  match l with
+  | [] => []
+  | h :: l' =>
+      match raises with
+      | true :: _ => [h]
+      | _ :: r' => h :: cut r' l'
+      | [] => h :: l'
+      end
+  end.
 
 (* the log: what was executed, in execution order; LDeliver is written when the dispatch starts
    and lists every handler the dispatch runs *)
@@ -74,25 +89,27 @@ Inductive logev : Type :=
 | LReg (o : regop)
 | LDeliver (topic : list Z) (decodable : bool) (ran : list handler).
 
-Definition h_step (o : hop) (s : cstate) : cstate * list logev :=
+(* [suppress] = client.suppress_exceptions *)
+Definition h_step (suppress : bool) (o : hop) (s : cstate) : cstate * list logev :=
   match o with
   | HReg r => (reg_step r s, [LReg r])
-  | HDeliver topic decodable inner =>
-      let ran := dispatch s decodable topic in
+  | HDeliver topic decodable inner raises =>
+      let all := dispatch s decodable topic in
+      let ran := if suppress then all else cut raises all in
       let executed := concat (firstn (length ran) inner) in
       (reg_steps executed s, LDeliver topic decodable ran :: map LReg executed)
   end.
 
-Fixpoint h_run (h : list hop) (s : cstate) : cstate * list logev :=
+Fixpoint h_run (suppress : bool) (h : list hop) (s : cstate) : cstate * list logev :=
   match h with
   | [] => (s, [])
   | o :: h' =>
-      let (s1, l1) := h_step o s in
-      let (s2, l2) := h_run h' s1 in
+      let (s1, l1) := h_step suppress o s in
+      let (s2, l2) := h_run suppress h' s1 in
       (s2, l1 ++ l2)
   end.
 
-Definition h_log (h : list hop) : list logev := snd (h_run h c_init).
+Definition h_log (suppress : bool) (h : list hop) : list logev := snd (h_run suppress h c_init).
 
 (* ---------------------------------------------------------------- the property as a checker on logs
    (also extracted, so that logs recorded from the real client are judged by the same function) *)
@@ -153,5 +170,13 @@ Fixpoint deliveries_valid (h : list hop) : bool :=
   match h with
   | [] => true
   | HReg _ :: h' => deliveries_valid h'
-  | HDeliver topic decodable _ :: h' => (negb decodable || valid_topic topic) && deliveries_valid h'
+  | HDeliver topic decodable _ _ :: h' => (negb decodable || valid_topic topic) && deliveries_valid h'
+  end.
+
+(* no handler raises *)
+Fixpoint no_raise (h : list hop) : bool :=
+  match h with
+  | [] => true
+  | HReg _ :: h' => no_raise h'
+  | HDeliver _ _ _ raises :: h' => negb (existsb (fun b => b) raises) && no_raise h'
   end.
